@@ -1,12 +1,12 @@
 // hgv_switch: runs a REAL graph
-//     replay(key: TS<Int> | TS<Str>) [, replay(x: TS<Int>) [, replay(y: TS<Int>)]]
-//         -> switch_({k1: f1, k2: f2, ...[, default]}[.reload()] [, x [, y]]) -> record
+//     replay(key: TS<Int> | TS<Str>) [, replay(x: TS<Int>) [, replay(y: TS<Int>) [, replay(z: TS<Int>)]]]
+//         -> switch_({k1: f1, k2: f2, ...[, default]}[.reload()] [, x [, y [, z]]]) -> record
 // compiled from the working tree, in simulation, for a textual key/input history, and prints what was
 // observed per engine cycle: the recorded output tick and the lifecycle of the branch graphs.
 // One output line per input line.
 //
 //   case <id>                                  -> "case <id>"   (flushes a pending history first)
-//   cfg <int|str> <reload 0|1> <default|-> <nin 0|1|2> <key>=<branch> ...   -> "ok" | "bad-op"
+//   cfg <int|str> <reload 0|1> <default|-> <nin 0|1|2|3> <key>=<branch> ...   -> "ok" | "bad-op"
 //        (str: the keys are the decimal strings of the given integers, wired as TS<Str>)
 //        branches (every branch binds ALL nin inputs; a key-consuming one the key as well):
 //          nin=0: beat    start hook schedules now; every wake: k++, emit 100+k, wake +2 while k<3   (self-scheduling source)
@@ -22,7 +22,24 @@
 //                 sum2    total += x if x ticked, += y if y ticked; inputs Unchecked (evaluated with invalid inputs too)
 //                 timer2  as timer on x, every output + 1000y; a y tick alone emits 1000y and keeps the pending wake
 //                                                                         (self-scheduling)
-//   c [k <key>] [x <v>] [y <v>]                one engine cycle at MIN_ST + i; answered when the run happens:
+//        one node bound to SEVERAL boundary inputs with a policy per position (P passive, A active, U unchecked
+//        validity; "v?" = the value, -1 when the input is not valid):
+//          nin=1: pecho   (x:P) x                                         never scheduled: its only input is passive
+//                 kpx     (key:P, x:A) 1000 key + x                       first binding passive
+//                 kxp     (key:A, x:P) 1000 key + x
+//          nin=2: gadd    (x:P, y:A) 100x + y                             first binding passive
+//                 gaddr   (x:A, y:P) 100x + y
+//                 pp2     (x:P, y:P) 100x + y                             never scheduled
+//                 orelse  (x:A U, y:A) 100 x? + y                         first binding optional
+//                 orelser (x:A, y:A U) 100x + y?
+//                 uap2    (x:A U, y:P) 100 x? + y                         optional active first, passive required second
+//                 usum2p  (x:P U, y:A U) 100 x? + y?                      all Unchecked (evaluated with invalid inputs), first passive
+//                 kgadd   (key:P, x:P, y:A) 10000 key + 100x + y          three bindings, only the last active
+//                 kmid    (key:P, x:A, y:P) 10000 key + 100x + y          three bindings, only the middle active
+//          nin=3: add3    (x:A, y:A, z:A) x + y + z
+//                 g3      (x:P, y:A U, z:A) 10000x + 100 y? + z
+//                 g3l     (x:P, y:P, z:A) 10000x + 100y + z
+//   c [k <key>] [x <v>] [y <v>] [z <v>]                one engine cycle at MIN_ST + i; answered when the run happens:
 //        "idle"                                 the root graph was not evaluated in that cycle (the replay nodes
 //                                               wake the root graph in every cycle of the history, so: never)
 //        "rec=<v|-> out=<v|none> ev=<e,e,...|-> ngc=<stored graphs>"
@@ -292,6 +309,167 @@ namespace
         }
     };
 
+    // ---- one node, several boundary bindings, a policy per position ------------------------------------
+    constexpr auto PAS = InputActivity::Passive;
+    constexpr auto UNC = InputValidity::Unchecked;
+    template <typename T> Int vq(const T &in) { return in.valid() ? Int{in.value()} : Int{-1}; }
+
+    struct HgvPecho
+    {
+        static constexpr auto name = "hgv_pecho";
+        static void start(State<Life> s) { born(s); }
+        static void eval(In<"x", TS<Int>, PAS> x, State<Life> s, Out<TS<Int>> out) { user(s); out.set(x.value()); }
+    };
+    template <typename K> Int key_int(const K &key)
+    {
+        if constexpr (std::is_same_v<std::remove_cvref_t<decltype(key.value())>, Int>) { return key.value(); }
+        else { return Int{std::stoll(std::string{key.value()})}; }
+    }
+    template <typename KT>
+    struct HgvKpx
+    {
+        static constexpr auto name = "hgv_kpx";
+        static void start(State<Life> s) { born(s); }
+        static void eval(In<"key", TS<KT>, PAS> key, In<"x", TS<Int>> x, State<Life> s, Out<TS<Int>> out)
+        {
+            user(s);
+            out.set(key_int(key) * Int{1000} + x.value());
+        }
+    };
+    template <typename KT>
+    struct HgvKxp
+    {
+        static constexpr auto name = "hgv_kxp";
+        static void start(State<Life> s) { born(s); }
+        static void eval(In<"key", TS<KT>> key, In<"x", TS<Int>, PAS> x, State<Life> s, Out<TS<Int>> out)
+        {
+            user(s);
+            out.set(key_int(key) * Int{1000} + x.value());
+        }
+    };
+    struct HgvGadd
+    {
+        static constexpr auto name = "hgv_gadd";
+        static void start(State<Life> s) { born(s); }
+        static void eval(In<"x", TS<Int>, PAS> x, In<"y", TS<Int>> y, State<Life> s, Out<TS<Int>> out)
+        {
+            user(s);
+            out.set(x.value() * Int{100} + y.value());
+        }
+    };
+    struct HgvGaddr
+    {
+        static constexpr auto name = "hgv_gaddr";
+        static void start(State<Life> s) { born(s); }
+        static void eval(In<"x", TS<Int>> x, In<"y", TS<Int>, PAS> y, State<Life> s, Out<TS<Int>> out)
+        {
+            user(s);
+            out.set(x.value() * Int{100} + y.value());
+        }
+    };
+    struct HgvPp2
+    {
+        static constexpr auto name = "hgv_pp2";
+        static void start(State<Life> s) { born(s); }
+        static void eval(In<"x", TS<Int>, PAS> x, In<"y", TS<Int>, PAS> y, State<Life> s, Out<TS<Int>> out)
+        {
+            user(s);
+            out.set(x.value() * Int{100} + y.value());
+        }
+    };
+    struct HgvOrelse
+    {
+        static constexpr auto name = "hgv_orelse";
+        static void start(State<Life> s) { born(s); }
+        static void eval(In<"x", TS<Int>, UNC> x, In<"y", TS<Int>> y, State<Life> s, Out<TS<Int>> out)
+        {
+            user(s);
+            out.set(vq(x) * Int{100} + y.value());
+        }
+    };
+    struct HgvOrelser
+    {
+        static constexpr auto name = "hgv_orelser";
+        static void start(State<Life> s) { born(s); }
+        static void eval(In<"x", TS<Int>> x, In<"y", TS<Int>, UNC> y, State<Life> s, Out<TS<Int>> out)
+        {
+            user(s);
+            out.set(x.value() * Int{100} + vq(y));
+        }
+    };
+    struct HgvUsum2p
+    {
+        static constexpr auto name = "hgv_usum2p";
+        static void start(State<Life> s) { born(s); }
+        static void eval(In<"x", TS<Int>, PAS, UNC> x, In<"y", TS<Int>, UNC> y, State<Life> s, Out<TS<Int>> out)
+        {
+            user(s);
+            out.set(vq(x) * Int{100} + vq(y));
+        }
+    };
+    struct HgvUap2
+    {
+        static constexpr auto name = "hgv_uap2";
+        static void start(State<Life> s) { born(s); }
+        static void eval(In<"x", TS<Int>, UNC> x, In<"y", TS<Int>, PAS> y, State<Life> s, Out<TS<Int>> out)
+        {
+            user(s);
+            out.set(vq(x) * Int{100} + y.value());
+        }
+    };
+    template <typename KT>
+    struct HgvKgadd
+    {
+        static constexpr auto name = "hgv_kgadd";
+        static void start(State<Life> s) { born(s); }
+        static void eval(In<"key", TS<KT>, PAS> key, In<"x", TS<Int>, PAS> x, In<"y", TS<Int>> y, State<Life> s, Out<TS<Int>> out)
+        {
+            user(s);
+            out.set(key_int(key) * Int{10000} + x.value() * Int{100} + y.value());
+        }
+    };
+    template <typename KT>
+    struct HgvKmid
+    {
+        static constexpr auto name = "hgv_kmid";
+        static void start(State<Life> s) { born(s); }
+        static void eval(In<"key", TS<KT>, PAS> key, In<"x", TS<Int>> x, In<"y", TS<Int>, PAS> y, State<Life> s, Out<TS<Int>> out)
+        {
+            user(s);
+            out.set(key_int(key) * Int{10000} + x.value() * Int{100} + y.value());
+        }
+    };
+    struct HgvAdd3
+    {
+        static constexpr auto name = "hgv_add3";
+        static void start(State<Life> s) { born(s); }
+        static void eval(In<"x", TS<Int>> x, In<"y", TS<Int>> y, In<"z", TS<Int>> z, State<Life> s, Out<TS<Int>> out)
+        {
+            user(s);
+            out.set(x.value() + y.value() + z.value());
+        }
+    };
+    struct HgvG3
+    {
+        static constexpr auto name = "hgv_g3";
+        static void start(State<Life> s) { born(s); }
+        static void eval(In<"x", TS<Int>, PAS> x, In<"y", TS<Int>, UNC> y, In<"z", TS<Int>> z, State<Life> s, Out<TS<Int>> out)
+        {
+            user(s);
+            out.set(x.value() * Int{10000} + vq(y) * Int{100} + z.value());
+        }
+    };
+    struct HgvG3l
+    {
+        static constexpr auto name = "hgv_g3l";
+        static void start(State<Life> s) { born(s); }
+        static void eval(In<"x", TS<Int>, PAS> x, In<"y", TS<Int>, PAS> y, In<"z", TS<Int>> z, State<Life> s, Out<TS<Int>> out)
+        {
+            user(s);
+            out.set(x.value() * Int{10000} + y.value() * Int{100} + z.value());
+        }
+    };
+
     struct HgvDbl1
     {
         static constexpr auto name = "hgv_dbl1";
@@ -303,7 +481,10 @@ namespace
     };
 
     const std::map<std::string, int> BRANCHES{{"beat", 0},  {"keyonly", 0}, {"inc", 1},     {"sum", 1},  {"keyadd", 1}, {"timer", 1},
-                                              {"dbl1", 1},  {"add2", 2},    {"keyadd2", 2}, {"sum2", 2}, {"timer2", 2}};
+                                              {"dbl1", 1},  {"add2", 2},    {"keyadd2", 2}, {"sum2", 2}, {"timer2", 2},
+                                              {"pecho", 1}, {"kpx", 1},     {"kxp", 1},     {"gadd", 2}, {"gaddr", 2},
+                                              {"pp2", 2},   {"orelse", 2},  {"orelser", 2}, {"usum2p", 2}, {"kgadd", 2},
+                                              {"kmid", 2},  {"uap2", 2},    {"add3", 3},    {"g3", 3},      {"g3l", 3}};
 
     // which harness node identifies a branch graph (the observer names a started instance by it)
     std::string branch_of_graph(const GraphView &g)
@@ -358,7 +539,7 @@ namespace
 
     struct Cycle
     {
-        std::optional<std::int64_t> k, x, y;
+        std::optional<std::int64_t> k, x, y, z;
     };
 
     WiredFn branch_fn(const std::string &b, bool str_key)
@@ -374,6 +555,21 @@ namespace
         if (b == "sum2") { return fn<HgvSum2>(); }
         if (b == "timer2") { return fn<HgvTimer2>(); }
         if (b == "dbl1") { return fn<HgvDbl1>(); }
+        if (b == "pecho") { return fn<HgvPecho>(); }
+        if (b == "kpx") { return str_key ? fn<HgvKpx<Str>>() : fn<HgvKpx<Int>>(); }
+        if (b == "kxp") { return str_key ? fn<HgvKxp<Str>>() : fn<HgvKxp<Int>>(); }
+        if (b == "gadd") { return fn<HgvGadd>(); }
+        if (b == "gaddr") { return fn<HgvGaddr>(); }
+        if (b == "pp2") { return fn<HgvPp2>(); }
+        if (b == "orelse") { return fn<HgvOrelse>(); }
+        if (b == "orelser") { return fn<HgvOrelser>(); }
+        if (b == "usum2p") { return fn<HgvUsum2p>(); }
+        if (b == "uap2") { return fn<HgvUap2>(); }
+        if (b == "kgadd") { return str_key ? fn<HgvKgadd<Str>>() : fn<HgvKgadd<Int>>(); }
+        if (b == "kmid") { return str_key ? fn<HgvKmid<Str>>() : fn<HgvKmid<Int>>(); }
+        if (b == "add3") { return fn<HgvAdd3>(); }
+        if (b == "g3") { return fn<HgvG3>(); }
+        if (b == "g3l") { return fn<HgvG3l>(); }
         throw std::invalid_argument("branch");
     }
 
@@ -485,26 +681,33 @@ namespace
                 auto x = call_operator(w, "replay", {scalar_arg(Value{Str{"hgv::x"}})}, true, ts_int);
                 sargs.push_back(ts_arg(x.output.erased()));
             }
-            if (cfg.nin == 2)
+            if (cfg.nin >= 2)
             {
                 auto y = call_operator(w, "replay", {scalar_arg(Value{Str{"hgv::y"}})}, true, ts_int);
                 sargs.push_back(ts_arg(y.output.erased()));
+            }
+            if (cfg.nin == 3)
+            {
+                auto z = call_operator(w, "replay", {scalar_arg(Value{Str{"hgv::z"}})}, true, ts_int);
+                sargs.push_back(ts_arg(z.output.erased()));
             }
             auto sw = call_operator(w, "switch_", std::move(sargs), true);
             static_cast<void>(call_operator(w, "record", {ts_arg(sw.output.erased()), scalar_arg(Value{Str{"hgv::out"}})},
                                             false));
             GraphBuilder gb = std::move(w).finish();
 
-            std::vector<std::optional<Value>> kd, xd, yd;
+            std::vector<std::optional<Value>> kd, xd, yd, zd;
             for (const Cycle &c : cycles)
             {
                 kd.push_back(c.k ? std::optional<Value>{key_value(*c.k, cfg.str_key)} : std::nullopt);
                 xd.push_back(c.x ? std::optional<Value>{Value{Int{*c.x}}} : std::nullopt);
                 yd.push_back(c.y ? std::optional<Value>{Value{Int{*c.y}}} : std::nullopt);
+                zd.push_back(c.z ? std::optional<Value>{Value{Int{*c.z}}} : std::nullopt);
             }
             testing::set_replay_deltas(gb.global_state(), "hgv::key", kd);
             if (cfg.nin >= 1) { testing::set_replay_deltas(gb.global_state(), "hgv::x", xd); }
-            if (cfg.nin == 2) { testing::set_replay_deltas(gb.global_state(), "hgv::y", yd); }
+            if (cfg.nin >= 2) { testing::set_replay_deltas(gb.global_state(), "hgv::y", yd); }
+            if (cfg.nin == 3) { testing::set_replay_deltas(gb.global_state(), "hgv::z", zd); }
 
             GraphExecutorBuilder eb;
             eb.graph_builder(std::move(gb))
@@ -603,7 +806,8 @@ int main()
                 bool ok = true;
                 if (w[1] == "int") { c.str_key = false; } else if (w[1] == "str") { c.str_key = true; } else { ok = false; }
                 if (w[2] == "0") { c.reload = false; } else if (w[2] == "1") { c.reload = true; } else { ok = false; }
-                if (w[4] == "0") { c.nin = 0; } else if (w[4] == "1") { c.nin = 1; } else if (w[4] == "2") { c.nin = 2; } else { ok = false; }
+                if (w[4] == "0") { c.nin = 0; } else if (w[4] == "1") { c.nin = 1; } else if (w[4] == "2") { c.nin = 2; }
+                else if (w[4] == "3") { c.nin = 3; } else { ok = false; }
                 auto known = [&](const std::string &b) {
                     auto it = BRANCHES.find(b);
                     return it != BRANCHES.end() && it->second == c.nin;
@@ -636,7 +840,8 @@ int main()
                     if (std::to_string(v) != w[i + 1]) { ok = false; }
                     else if (w[i] == "k" && !c.k) { c.k = v; }
                     else if (w[i] == "x" && !c.x && cfg.nin >= 1) { c.x = v; }
-                    else if (w[i] == "y" && !c.y && cfg.nin == 2) { c.y = v; }
+                    else if (w[i] == "y" && !c.y && cfg.nin >= 2) { c.y = v; }
+                    else if (w[i] == "z" && !c.z && cfg.nin == 3) { c.z = v; }
                     else { ok = false; }
                 }
                 if (!ok) { flush(false); std::cout << "bad-op\n"; }
